@@ -50,8 +50,8 @@ def run(tier, seed):
     run.add_tlc(r1, "Catalogue: <=3 restarts, <=4 steps, plain name, exhaustive")
     r2 = E.run_catalogue(2, 3, names=["my_restart_run", "arange_rl"], layouts=[("onefile", "grouped"), ("proc", "ungrouped")])
     run.add_tlc(r2, "Catalogue: names containing words of the catalogue format, <=2 restarts, <=3 steps, exhaustive")
-    r2b = E.run_catalogue(2, 2, names=["bbh"], layouts=[("onefile", "grouped"), ("proc", "ungrouped")], nlevels=(12,))
-    run.add_tlc(r2b, "Catalogue: 12 refinement levels (two-digit level numbers), <=2 restarts, <=2 steps, exhaustive")
+    r2b = E.run_catalogue(2, 2, names=["bbh"], layouts=[("onefile", "grouped"), ("proc", "ungrouped")], nlevels=(12, 3))
+    run.add_tlc(r2b, "Catalogue: 12 refinement levels (two-digit level numbers) and levels 0 and 2 only (a gap), <=2 restarts, <=2 steps, exhaustive")
     states = []
     for r in (r1, r2, r2b):
         if r.violated:
@@ -87,7 +87,7 @@ def run(tier, seed):
         s = states[len(states) // 2]
         run.sample({"name": s["name"], "layout": s["layout"], "levels": s["nlev"], "steps": s["hist"], "scan": s["scan"]})
     run.rule = ("every behaviour of Catalogue.tla (directories growing by restarts of three shapes incl. single-iteration restarts and level-dependent "
-                "strides, 1, 2 or 12 refinement levels, variable names with brackets; calls iterations(skip_last)/read_iterations()/get_content(restart, overwrite) interleaved with new restarts; simulation names "
+                "strides, 1, 2 or 12 refinement levels or levels 0 and 2 only, levels split into different numbers of components, variable names with brackets; calls iterations(skip_last)/read_iterations()/get_content(restart, overwrite) interleaved with new restarts; simulation names "
                 "containing 'restart', 'arange', 'rl') is replayed on generated directories: returned structures = Scan of what is on disk, files parse "
                 "back to them, repeated calls are identities, overall = union of the restarts, and the incremental catalogue equals a fresh scan of "
                 "a copy; name/key parsing inverted over enumerated component alphabets. Non-trivial = >= 2 restarts or >= 2 calls")
